@@ -290,7 +290,7 @@ static int run_random(uint64_t seed, long n, bool nodedup, bool intnormals, bool
   for (long i = 0; i < n; ++i) {
     GenParams p = gp;
     if (bigmode) { p.max_points = 3000; p.max_faces = 6000; }
-    else if (g_expdims && r.coin(1, 12)) { p.max_points = 1500; p.max_faces = 2600; }     // determinism campaign: meshes on both sides of 1000 faces
+    else if (g_expdims && r.coin(1, 6)) { p.max_points = 1500; p.max_faces = 2600; }     // determinism campaign: meshes on both sides of 1000 faces
     else if (r.coin(1, 10)) { p.max_points = 400; p.max_faces = 800; }
     const bool mesh = g_handles || r.coin(2, 3);
     Geom g = gen_geometry(r, mesh, p);
@@ -311,7 +311,8 @@ static int run_random(uint64_t seed, long n, bool nodedup, bool intnormals, bool
     if (getenv("VERIF_FROM_CASE") && n_cases + 1 < atoll(getenv("VERIF_FROM_CASE"))) { ++n_cases; continue; }
     // ... or with the first LARGE mesh of the campaign (more than 1200 faces): the first geometry a process encodes is then of another size class
     static bool started = false;
-    if (getenv("VERIF_FROM_BIG") && !started) { if (g.is_mesh && g.mesh()->num_faces() > 1200) started = true; else { ++n_cases; continue; } }
+    // (a large mesh that goes through Edgebreaker with the sub-method left to the encoder: that is where the encoder decides by size)
+    if (getenv("VERIF_FROM_BIG") && !started) { if (g.is_mesh && g.mesh()->num_faces() > 1200 && o.method != 0 && o.submethod < 0 && o.es < 5) started = true; else { ++n_cases; continue; } }
     if (getenv("VERIF_SPLIT")) o.split = atoi(getenv("VERIF_SPLIT"));
     if (getenv("VERIF_PRED")) o.pred = atoi(getenv("VERIF_PRED"));
     if (getenv("VERIF_ES")) o.es = o.ds = atoi(getenv("VERIF_ES"));
